@@ -1926,6 +1926,62 @@ def replay_counterexample(ctx, binder, trace):
     return regressed
 
 
+def lazy_angle_options_part(ctx, quick):
+    """lazily evaluated angle data == eager angle data under every keyword of cal_angle_from_momentum: the deferred
+    call must receive the same options as the eager one (keywords enumerated from the function's own signature)"""
+    import inspect
+    import itertools
+
+    from tf_pwa.cal_angle import cal_angle_from_momentum
+    from tf_pwa.data import LazyCall, LazyFile, data_to_numpy, flatten_dict_data
+
+    from .. import models
+
+    cfg = models.make_config(models.toy_dict(spin0=False))
+    dg = cfg.get_amplitude().decay_group
+    p4 = models.phsp_p4(12, ctx.seed % 1000 + 51)
+    order = cfg.get_dat_order()
+    pdict = dict(zip(order, [np.asarray(x) for x in p4]))
+    sig = inspect.signature(cal_angle_from_momentum)
+    space = {}
+    for name, prm in sig.parameters.items():
+        if name in ("p", "decs", "batch"):
+            continue
+        if isinstance(prm.default, bool):
+            space[name] = [prm.default, not prm.default]
+        elif name == "align_ref":
+            space[name] = [None, "center_mass"]
+        else:
+            raise tlc.MachineryError("cal_angle_from_momentum has a keyword the check does not know: %s" % name)
+    names = sorted(space)
+    # one keyword away from the defaults, and all pairs in the thorough tier
+    combos = [{}] + [{n: space[n][1]} for n in names]
+    if not quick:
+        combos += [{a: space[a][1], b: space[b][1]} for a, b in itertools.combinations(names, 2)]
+    n = 0
+
+    def flat(d):
+        return {str(k): np.asarray(v) for k, v in flatten_dict_data(data_to_numpy(d)).items()}
+
+    for opts in combos:
+        key = "lazy_cal_angle:" + (",".join("%s=%s" % kv for kv in sorted(opts.items())) or "defaults")
+        try:
+            eager = flat(cal_angle_from_momentum(pdict, dg, **opts))
+            for kind, lazy_p in (("LazyCall", LazyCall(lambda x: x, pdict)), ("LazyFile", LazyFile(pdict))):
+                ld = cal_angle_from_momentum(lazy_p, dg, **opts)
+                got = flat(ld.eval())
+                n += 1
+                ctx.count(1, distinct_key=(key, kind))
+                bad = sorted(k for k in eager if k not in got or got[k].shape != eager[k].shape or not np.allclose(got[k], eager[k], rtol=1e-12, atol=1e-12, equal_nan=True))
+                if bad or set(got) != set(eager):
+                    _viol(ctx, key + ":" + kind, {"differing_leaves": bad[:6], "missing": sorted(set(eager) - set(got))[:4], "extra": sorted(set(got) - set(eager))[:4]})
+                    break
+        except Exception as ex:  # noqa: BLE001
+            _viol(ctx, key + ":raise", {"error": repr(ex)[:300]})
+    ctx.part("lazy_angle_options", option_sets=len(combos), comparisons=n, keywords=names)
+    return n
+
+
 def run(ctx):
     from ..prelude import import_tf_quiet
 
@@ -1953,6 +2009,7 @@ def run(ctx):
     ctx.log("LazyCall cache-layer histories replayed: %d uses" % v6)
     v5 = cached_data_part(ctx, quick)
     ctx.log("cached-data sessions replayed: %d observations" % v5)
+    v5 += lazy_angle_options_part(ctx, quick)
     ctx.cov["exhaustive"] = True
     ctx.cov["traces_validated_against_impl"] = binder.validated + v1 + v2 + v3 + v4 + v5 + v6
     ctx.cov["rule"] = (
